@@ -560,6 +560,8 @@ class PWLCalibration(keras.layers.Layer):
       outputs = self.call([test_inputs, tf.zeros_like(test_inputs)])
     else:
       outputs = self.call(test_inputs)
+    if self.units > 1 and self.split_outputs:
+      outputs = tf.concat(outputs, axis=1)
 
     asserts = pwl_calibration_lib.assert_constraints(
         outputs=outputs,
